@@ -605,7 +605,7 @@ func (bg *BondgoCheck) Visit(n ast.Node) ast.Visitor {
 		results := new(BondgoResults) // Results go in here
 		results.Init_Results(bg.BondgoConfig)
 
-		bgfor := &BondgoCheck{results, bg.BondgoConfig, bg.BondgoRequirements, bg.BondgoRuninfo, bg.BondgoMessages, bg.BondgoFunctions, bg.Used, bg.Reqs, bg.Answers, bg, nil, bg.Vars, bg.Returns, "", bg.CurrentSwitch, bg.CurrentDevice, bg.CurrentRoutine}
+		bgfor := &BondgoCheck{results, bg.BondgoConfig, bg.BondgoRequirements, bg.BondgoRuninfo, bg.BondgoMessages, bg.BondgoFunctions, bg.Used, bg.Reqs, bg.Answers, bg, nil, bg.Vars, bg.Returns, "", "", bg.CurrentDevice, bg.CurrentRoutine}
 
 		if bg.In_debug() {
 			fmt.Printf("%p\n", bgfor)
@@ -1525,7 +1525,11 @@ func (bg *BondgoCheck) Visit(n ast.Node) ast.Visitor {
 		}
 		switch x.Tok {
 		case token.BREAK:
-			if bg.CurrentLoop != "" {
+			if bg.CurrentSwitch != "" && !strings.HasPrefix(bg.CurrentSwitch, "SEL") {
+				// a switch entered after the innermost loop (a loop clears CurrentSwitch): break leaves the switch
+				bg.WriteLine(bg.CurrentRoutine, "j <<"+bg.CurrentSwitch+"SWEND>>")
+				bg.Used <- UsageNotify{TR_PROC, bg.CurrentRoutine, C_OPCODE, "j", I_NIL}
+			} else if bg.CurrentLoop != "" {
 				bg.WriteLine(bg.CurrentRoutine, "j <<"+bg.CurrentLoop+"ENDFOR>>")
 				bg.Used <- UsageNotify{TR_PROC, bg.CurrentRoutine, C_OPCODE, "j", I_NIL}
 			} else {
